@@ -273,6 +273,50 @@ theorem readCell_writeCell {st : AggState} (hs : AggSorted st) (k : List Value) 
     cases ca <;> cases cv <;>
       simp only [readCell, setAgg, setVal, gmLookup_gmSet hs.aggs, gmLookup_gmSet hs.vals, hcond, if_false]
 
+/-- shape invariants of the two maps: no aggregate index twice in a group, no empty group in `group_values`,
+every stored key is one of the keys `S` (the keys of the rows seen) -/
+structure Shape (st : AggState) (S : List (List Value)) : Prop where
+  aggsInner : ∀ g ∈ st.aggs, (g.2.map (·.1)).Nodup
+  valsNonempty : ∀ g ∈ st.vals, g.2 ≠ []
+  aggsKeys : ∀ g ∈ st.aggs, g.1 ∈ S
+  valsKeys : ∀ g ∈ st.vals, g.1 ∈ S
+
+theorem shape_init (S : List (List Value)) : Shape {} S :=
+  ⟨fun _ h => by simp at h, fun _ h => by simp at h, fun _ h => by simp at h, fun _ h => by simp at h⟩
+
+theorem shape_mono {st : AggState} {S S' : List (List Value)} (h : Shape st S) (hsub : ∀ k ∈ S, k ∈ S') : Shape st S' :=
+  ⟨h.aggsInner, h.valsNonempty, fun g hg => hsub _ (h.aggsKeys g hg), fun g hg => hsub _ (h.valsKeys g hg)⟩
+
+theorem shape_setVal {st : AggState} {S : List (List Value)} (h : Shape st S) {k : List Value} (hk : k ∈ S) (i : Nat) (v : Value) :
+    Shape (setVal st k i v) S := by
+  refine ⟨h.aggsInner, ?_, h.aggsKeys, ?_⟩
+  · exact gm_all_gmModify (P := fun l => l ≠ []) (f := fun l => alSet l i v) h.valsNonempty k (alSet_ne_nil _ _ _) (fun l _ => alSet_ne_nil l _ _)
+  · intro g hg
+    rcases gm_key_gmModify st.vals k _ g hg with h1 | h1
+    · rw [h1]; exact hk
+    · obtain ⟨g', hg', he⟩ := List.mem_map.mp h1
+      rw [← he]; exact h.valsKeys g' hg'
+
+theorem shape_setAgg {st : AggState} {S : List (List Value)} (h : Shape st S) {k : List Value} (hk : k ∈ S) (i : Nat) (a : Aggregator) :
+    Shape (setAgg st k i a) S := by
+  refine ⟨?_, h.valsNonempty, ?_, h.valsKeys⟩
+  · exact gm_all_gmModify (P := fun l => (l.map (·.1)).Nodup) (f := fun l => alSet l i a) h.aggsInner k
+      (alSet_nodup [] i a (by simp)) (fun l hl => alSet_nodup l i a hl)
+  · intro g hg
+    rcases gm_key_gmModify st.aggs k _ g hg with h1 | h1
+    · rw [h1]; exact hk
+    · obtain ⟨g', hg', he⟩ := List.mem_map.mp h1
+      rw [← he]; exact h.aggsKeys g' hg'
+
+theorem shape_writeCell {st : AggState} {S : List (List Value)} (h : Shape st S) {k : List Value} (hk : k ∈ S) (i : Nat) (c : Cell) :
+    Shape (writeCell st k i c) S := by
+  unfold writeCell
+  cases c.agg <;> cases c.val <;> simp only
+  · exact h
+  · exact shape_setVal h hk _ _
+  · exact shape_setAgg h hk _ _
+  · exact shape_setVal (shape_setAgg h hk _ _) hk _ _
+
 /-- `update_aggregate` for (key, idx): that cell takes one `cellStep`, every other cell is untouched -/
 theorem updateAggregate_cells {O : Oracles} {q : AggStmt} {env : Env} {key : List Value} {idx : Nat} {k : AggKind}
     {st st' : AggState} (hs : AggSorted st) (h : updateAggregate O q env key idx k st = .ok st') :
@@ -283,5 +327,14 @@ theorem updateAggregate_cells {O : Oracles} {q : AggStmt} {env : Env} {key : Lis
   simp only [pure, Outcome.ok.injEq] at h2
   subst h2
   exact ⟨aggSorted_writeCell hs _ _ _, c', h1, readCell_writeCell hs key idx c' (cellStep_extends h1)⟩
+
+theorem updateAggregate_shape {O : Oracles} {q : AggStmt} {env : Env} {key : List Value} {idx : Nat} {k : AggKind}
+    {st st' : AggState} {S : List (List Value)} (hsh : Shape st S) (hk : key ∈ S)
+    (h : updateAggregate O q env key idx k st = .ok st') : Shape st' S := by
+  unfold updateAggregate at h
+  obtain ⟨c', _, h2⟩ := bind_ok h
+  simp only [pure, Outcome.ok.injEq] at h2
+  subst h2
+  exact shape_writeCell hsh hk _ _
 
 end Sqlgrep
